@@ -151,6 +151,10 @@ def arm_inplace(s, case):
     want_db = build(s)
     db = build(strip_props(s), allow_properties=True)       # every object constructed without a properties argument
     for a, t in zip(s.tables, db.tables):
+        for obj in [t] + list(t.columns):
+            if not isinstance(obj.properties, dict):
+                return [Viol('c15:inplace:no-dict', f'{type(obj).__name__} built without a properties argument has .properties == {obj.properties!r}, '
+                             'not an (empty) dict to store properties in', case)]
         for k, v in a.props:
             t.properties[k] = v
         for ac, c in zip(a.columns, t.columns):
